@@ -240,6 +240,7 @@ func (s *repServer) RecvMsg(any) error            { return errors.New("not suppo
 // ---- snapshot streams ---------------------------------------------------------
 
 type snapStream struct {
+	net    *Net
 	ctx    context.Context
 	cancel context.CancelFunc
 	chunks chan *proto.SnapshotChunk
@@ -256,7 +257,7 @@ func (n *Net) SendSnapshot(ctx context.Context, follower string, namespace strin
 	}
 	md := metadata.New(map[string]string{"shard-id": itoa(shard), "term": itoa(term), "namespace": namespace})
 	sctx, cancel := context.WithCancel(metadata.NewIncomingContext(ctx, md))
-	st := &snapStream{ctx: sctx, cancel: cancel, chunks: make(chan *proto.SnapshotChunk, 4096), resp: make(chan *proto.SnapshotResponse, 1), done: make(chan struct{})}
+	st := &snapStream{net: n, ctx: sctx, cancel: cancel, chunks: make(chan *proto.SnapshotChunk, 4096), resp: make(chan *proto.SnapshotResponse, 1), done: make(chan struct{})}
 	sc := vsched.Active()
 	t := sc.Go("snapshot@"+follower, func() {
 		st.err = ep.SendSnapshot(&snapServer{st})
@@ -273,6 +274,11 @@ type snapClient struct{ st *snapStream }
 func (c *snapClient) Send(ch *proto.SnapshotChunk) error {
 	if c.st.ctx.Err() != nil {
 		return status.Error(codes.Canceled, "stream closed")
+	}
+	if c.st.net != nil && c.st.net.breakNow() {
+		// the connection drops in the middle of the snapshot transfer
+		c.st.cancel()
+		return status.Error(codes.Unavailable, "transport is closing")
 	}
 	vsched.Send(c.st.chunks)(ch.CloneVT())
 	return nil
